@@ -16,7 +16,7 @@ from ..flow import Flow, lexically_inside
 
 FILESET = "typhon/files/fileset.py"
 HCOMMON = "typhon/files/handlers/common.py"
-EXPECT = {"C15.order": 6, "C15.load": 3, "C15.register": 1, "C15.format": 3, "C15.lookup": 3, "C15.entries": 2}
+EXPECT = {"C15.filesystem": 1, "C15.order": 6, "C15.load": 3, "C15.register": 1, "C15.format": 3, "C15.lookup": 3, "C15.entries": 2}
 
 
 def _write_mode(call):
@@ -467,6 +467,39 @@ def rule_entries(ctx):
            node=r.node, func=r, witness=None if checked == {"path", "attr"} else {"cache entry": {"path": "<file>", "times": ["...", "..."], "attr": "s"}})
 
 
+def rule_filesystem(ctx):
+    """The JSON document holds path, times and attributes; the file system a FileInfo lives on is not part of it.  FileInfo(...) defaults
+    to a new LocalFileSystem: an entry restored from the cache must be put on the file system of its fileset, else find() after a restart
+    yields files that cannot be read (a fileset on a zip archive)."""
+    ctx.rule("C15.filesystem", "T1", "load_cache puts every restored FileInfo on the file system of the fileset")
+    f = ctx.func(FILESET, "FileSet.load_cache")
+    flow = Flow(f)
+    upd = [c for c in calls_in(f.node, "update") if str(norm(c.func)) == "self.info_cache.update" and c.args]
+    sto = [st for st in flow.stmts if isinstance(st, ast.Assign) and str(norm(st.targets[0])) == "self.info_cache"]
+    if len(upd) + len(sto) != 1:
+        raise AnalysisError("load_cache: the hand-over of the loaded entries to self.info_cache was not found")
+    hand = enclosing_stmt(upd[0]) if upd else sto[0]
+    src = upd[0].args[0] if upd else sto[0].value
+    made = calls_in(f.node, "from_json_dict")
+    if len(made) != 1:
+        raise AnalysisError("load_cache: FileInfo.from_json_dict call not found")
+    # (a) the file system handed to the constructor, or (b) set on every entry before the hand-over
+    kw = {k.arg: str(norm(k.value)) for k in made[0].keywords}
+    direct = any(v_ == "self.file_system" for v_ in kw.values()) or any(str(norm(a_)) == "self.file_system" for a_ in made[0].args[1:])
+    later = False
+    for lp in [st for st in flow.stmts if isinstance(st, ast.For)]:
+        if not isinstance(src, ast.Name) or src.id not in str(norm(lp.iter)) or not flow._order(lp) < flow._order(hand):
+            continue
+        for st in lp.body:
+            if isinstance(st, ast.Assign) and isinstance(st.targets[0], ast.Attribute) and st.targets[0].attr == "file_system" and str(norm(st.value)) == "self.file_system" \
+                    and isinstance(st.targets[0].value, ast.Name) and st.targets[0].value.id in {n_.id for n_ in ast.walk(lp.target) if isinstance(n_, ast.Name)}:
+                later = True
+    ok = direct or later
+    ctx.ob("FileSet.load_cache.file_system", ok, "from_json_dict(%s); file system set on the loaded entries: %s" % (", ".join(str(norm(a_))[:30] for a_ in made[0].args), later or direct),
+           "info.file_system = self.file_system for every loaded entry (or handed to the constructor): find() gives the same FileInfo with or without the cache",
+           node=made[0], func=f, witness=None if ok else {"fileset": "FileSet(..., fs=ZipFileSystem('archive.zip'), info_cache=cache)", "after restart": "f.file_system is a LocalFileSystem; read raises FileNotFoundError"})
+
+
 def run(ctx):
-    for r in (rule_order, rule_load, rule_register, rule_format, rule_lookup, rule_entries):
+    for r in (rule_order, rule_load, rule_register, rule_format, rule_lookup, rule_entries, rule_filesystem):
         ctx.attempt(r, ctx)
